@@ -52,6 +52,10 @@ func scenarioC02(r *Run) {
 	}
 	cfg.Channels = append(cfg.Channels, ChanCfg{Name: "omega", Target: "tcp://" + TargetIP + ":7003"})
 	r.Net.SetDialFate("tcp", TargetIP+":7003", 2)
+	// a channel whose target refuses every connect (the service is down)
+	cfg.Listeners = append(cfg.Listeners, LsnCfg{Channel: "down", Kind: "tcp", Addr: "127.0.0.1:6005"})
+	cfg.Channels = append(cfg.Channels, ChanCfg{Name: "down", Target: "tcp://" + TargetIP + ":7004"})
+	r.Net.SetDialFate("tcp", TargetIP+":7004", 1)
 	k := 2 + c.Pick(5, "k")
 	maxPayload := payloadCap(r, carrier) / 4
 	if maxPayload > 192*1024 {
@@ -80,6 +84,38 @@ func scenarioC02(r *Run) {
 	if err != nil {
 		r.Fail("world-setup", "could not build world: %v", err)
 		return
+	}
+	// One run in twelve (stream carriers) starts with a long history on the session: 260-400 logical connections,
+	// one after the other, to the channel whose target is down. Each is refused; none may cost the session
+	// anything that the connections made afterwards need.
+	if !CarrierIsDNS(carrier) && !CarrierIsKCP(carrier) && c.Chance(1, 12, "history-of-failed-connections") {
+		nfail := 260 + c.Pick(140, "failed-connections")
+		for i := 0; i < nfail; i++ {
+			conn, err := w.DialApp(cfg.Listeners[4])
+			if err != nil {
+				r.Fail("connect", "application could not connect to the listener of the channel that is down: %v", err)
+				return
+			}
+			over := false
+			go func() {
+				buf := make([]byte, 64)
+				for {
+					if _, err := conn.Read(buf); err != nil {
+						over = true
+						return
+					}
+				}
+			}()
+			for w := 0; w < 100 && !over; w++ {
+				r.RunFor(100 * time.Millisecond)
+			}
+			if !over {
+				r.FailSig("progress", "phase=history-of-failed-connections carrier="+carrierClass(carrier), "connection %d of %d to the channel whose target refuses was neither served nor ended within 10 s", i, nfail)
+				return
+			}
+			conn.Close()
+		}
+		r.CountN("failed_connections_before_the_others", nfail)
 	}
 	conns := make([]*LConn, k)
 	active := 0
